@@ -81,6 +81,8 @@ class FakeProcLocalBackend(LocalBackend):
         self.calls = []         # record of backend-level operations, in order
         self.mid_world = {}     # trial_id -> world events to happen BETWEEN the two reads of this poll
         self.post_world = []    # world events to happen after this poll, before busy_trial_ids is asked
+        self.async_stop_polls = 0   # > 0: stop_trial is served with a delay (status "stopping" for that many polls,
+        self.stopping = {}          #      the worker keeps running meanwhile), as remote job services do
         self.unobserved_exit = False   # some worker exited at a moment other than "before a poll reads"
         self._exited = []
         self._in_poll = False
@@ -194,8 +196,17 @@ class FakeProcLocalBackend(LocalBackend):
 
     def _read_status(self, trial_id):
         s = super()._read_status(trial_id)
+        if trial_id in self.stopping and s not in (Status.stopped, Status.paused):
+            s = Status.stopping
         self._mid(trial_id)
         return s
+
+    def _stop_trial(self, trial_id, result):
+        if self.async_stop_polls > 0:
+            self.stopping[trial_id] = self.async_stop_polls    # the job goes on for a while
+            self.next_late = 0
+        else:
+            super()._stop_trial(trial_id, result)
 
     def stdout(self, trial_id):
         lines = super().stdout(trial_id)
@@ -222,6 +233,11 @@ class FakeProcLocalBackend(LocalBackend):
 
     # ---- recording wrappers (call the real implementation) -------------------
     def fetch_status_results(self, trial_ids, mid=None):
+        for tid in list(self.stopping):      # a delayed stop takes effect after its number of polls
+            self.stopping[tid] -= 1
+            if self.stopping[tid] < 0:
+                del self.stopping[tid]
+                LocalBackend._stop_trial(self, tid, None)
         self._apply_post()      # not consumed by busy_trial_ids: happens before this poll reads
         evs = list(self.world_fn(self)) if self.world_fn is not None else []
         self.unobserved_exit_save = self.unobserved_exit
